@@ -30,7 +30,8 @@ FUNS = [
  ("atf_loop", "fuel p count", 1, "loop_fuel"), ("on_about_to_finish", "fuel", 1, "plain"),
  ("set_volume", "v", 0, "plain"), ("set_mute", "m", 0, "plain"), ("save_state", "", 0, "plain"),
  ("load_state", "fuel cov s", 1, "plain"),
- ("deliver", "fuel", 1, "plain"), ("about_to_finish", "fuel", 1, "plain"), ("tick", "d", 0, "plain"),
+ ("deliver", "fuel", 1, "plain"), ("about_to_finish", "fuel", 1, "plain"), ("end_of_stream_env", "", 0, "plain"),
+ ("tick", "d", 0, "plain"),
  ("do_load", "fuel cov", 1, "plain"), ("run_op", "fuel o", 1, "plain"),
 ]
 
